@@ -82,6 +82,8 @@ def initial_blob(name):
         return _BLOBS[name]
     if name == "default":
         b = F.read_bytes(F.DEFAULT_PPTX)
+    elif name == "rich":
+        b = prs_ops.initial_blob("rich")   # 10 images, 2 charts, table, notes: allocators far from their first value
     else:
         sp, sl = name.split("/")
         m = F.zip_members(_base_deck())
@@ -103,10 +105,10 @@ def initial_blob(name):
     return b
 
 
-INITS = ["%s/s256" % p for p in SHAPE_POPS] + ["contig/%s" % s for s in SLIDE_POPS if s != "s256"] + ["default"]
+INITS = ["%s/s256" % p for p in SHAPE_POPS] + ["contig/%s" % s for s in SLIDE_POPS if s != "s256"] + ["default", "rich"]
 
 
-MID_INITS = ["contig/s256", "gap1/s256", "huge32/s256", "guid/s256", "dup/s256", "lead0/s256", "contig/smax", "contig/sdup", "default"]
+MID_INITS = ["contig/s256", "gap1/s256", "huge32/s256", "guid/s256", "dup/s256", "lead0/s256", "contig/smax", "contig/sdup", "default", "rich"]
 SUB_INITS = ["gap1/s256", "huge32/s256", "guid/s256", "dup/s256", "contig/smax", "default"]
 
 
@@ -157,7 +159,11 @@ def observe(prs):
                                 if etree.QName(a).localname in ("sp", "pic", "cxnSp", "graphicFrame"):
                                     owner = a
                                     break
-                            refs.append((tree.getpath(el), k, v, hashlib.sha1(etree.tostring(owner, method="c14n")).hexdigest()))
+                            oid = None
+                            for c in owner.iter("{%s}cNvPr" % NS["p"]):
+                                oid = c.get("id")
+                                break
+                            refs.append((tree.getpath(el), k, v, hashlib.sha1(etree.tostring(owner, method="c14n")).hexdigest(), oid))
             obs["parts"][pn] = {"ids": ids, "rids_used": used, "refs": refs, "obj": "%x" % id(part)}
     return obs
 
@@ -251,7 +257,8 @@ FULL = [
     dict(op="add_in_group", depth=1, kind="freeform"), dict(op="add_in_group", depth=1, kind="group"),
     dict(op="add_in_group", depth=2, kind="picture"), dict(op="add_in_group", depth=1, kind="connector"),
     dict(op="turbo", on=True), dict(op="turbo", on=False),
-    dict(op="add_slide", layout=6), dict(op="add_slide", layout=1),
+    dict(op="add_slide", layout=6), dict(op="add_slide", layout=1), dict(op="add_picture", img="I11", via="stream", **S0),
+    dict(op="add_chart", kind="xy", **S0),
     dict(op="notes_text", text="n", **S0), dict(op="hlink_shape", url="https://e.com/a", **S0), dict(op="hlink_shape", url=None, **S0),
     dict(op="hlink_shape", url="https://e.com/a", which="first", **S0), dict(op="hlink_shape", url=None, which="first", **S0),
     dict(op="hlink_run", url="https://e.com/a", which="first", **S0), dict(op="hlink_run", url="https://e.com/a", **S0),
@@ -404,10 +411,13 @@ def check_last(live, init, hist, part):
             # must still resolve to the same target
             if before is not None and by_obj:
                 rb, ra = pre["rels"].get(before[0], {}), post["rels"].get(pn, {})
-                after_refs = {(p_, k_, v_, h_) for p_, k_, v_, h_ in d["refs"]}
-                for p_, k_, v_, h_ in before[1]["refs"]:
+                after_refs = {(p_, k_, v_, h_) for p_, k_, v_, h_, _o in d["refs"]}
+                retarget = op["op"] in ("hlink_shape", "hlink_run", "target_slide")
+                for p_, k_, v_, h_, o_ in before[1]["refs"]:
                     if (p_, k_, v_, h_) not in after_refs:
                         continue  # the operation edited (or moved) the referencing shape
+                    if retarget and o_ is not None and str(o_) == str(live.last_target):
+                        continue  # the shape whose link the operation re-pointed: same rId may legitimately be re-used
                     if v_ in rb and v_ in ra and rb[v_] != ra[v_]:
                         viol("C06|rid-reassigned|op=%s" % opn, "%s: %s was %s now %s while still referenced by unchanged %s" % (pn, v_, rb[v_], ra[v_], p_))
                     if v_ in rb and v_ not in ra:
